@@ -119,6 +119,17 @@ theorem applyAuths_keeps (P : List Char → Bool) (name : List Char) (hP : P aut
       rw [h1, h2, any_setHeader_other P hs authName a hP, sentId_setHeader_other hs name authName a hn]
       exact ⟨rfl, rfl⟩
 
+/-- a chain of authenticating adapters only -/
+theorem applyAdapters_auth (as : List (List Char)) (hs : Headers) :
+    applyAdapters (as.map Adapter.auth) hs = applyAuths as hs := by
+  induction as generalizing hs with
+  | nil => rfl
+  | cons a as ih =>
+    simp only [List.map_cons, applyAdapters, applyAuths]
+    split
+    · rfl
+    · exact ih _
+
 theorem addContentType_sent (name : List Char) (hn : capitalize ctName ≠ capitalize name)
     (d : Bool) (hs : Headers) : sentId name (addContentType d hs) = sentId name hs := by
   unfold addContentType
